@@ -35,3 +35,13 @@ Lemma tco_skel_conds :
   conds_RawAccessPoint = [SendReady; RecvReady] /\ conds_LogicalDataLink = [SendReady; RecvReady] /\
   conds_DataLinkConnection = [AcksReady; SendToken; SendReady; RecvReady] /\ conds_ServiceDiscovery = [Resp].
 Proof. repeat split. Qed.
+
+(* the link run loops: every exception class that has to end the link has a handler that calls
+   self.terminate(<constant reason>) before anything that could raise (checked by the extractor, which
+   fails closed otherwise), in both run loops *)
+Definition required_handled : list string :=
+  ["KeyboardInterrupt"; "IOError"; "sec.KeyAgreementError"; "sec.DecryptionError"; "sec.EncryptionError"].
+Lemma run_loops_terminate :
+  map fst run_loop_handled = ["run_as_initiator"; "run_as_target"] /\
+  forallb (fun e => forallb (fun c => existsb (String.eqb c) (snd e)) required_handled) run_loop_handled = true.
+Proof. vm_compute. split; reflexivity. Qed.
